@@ -25,12 +25,16 @@ pub struct SsCase {
     pub route: Vec<usize>,
     pub train: TrainSpec,
     pub v0: f64,
+    /// initial TrainState speed when it differs from the first trace sample (rolling-start trace on a train
+    /// initialised at rest); None: equal to v0
+    #[serde(default)]
+    pub init_speed: Option<f64>,
     /// letters: accel index * 3 + dt index; 100 + k = "negative speed" probe (C14)
     pub path: Vec<usize>,
 }
 
 pub fn build_sim(nets: &[(String, Network)], c: &SsCase) -> Result<SetSpeedTrainSim, String> {
-    let b = builder(&c.train, None, Some(InitTrainState::new(Some(0.0 * uc::S), None, Some(c.v0 * uc::MPS))), Some(1));
+    let b = builder(&c.train, None, Some(InitTrainState::new(Some(0.0 * uc::S), None, Some(c.init_speed.unwrap_or(c.v0) * uc::MPS))), Some(1));
     let route: Vec<_> = c.route.iter().map(|&i| lidx(i)).collect();
     let trace = SpeedTrace::new(vec![0.0], vec![c.v0], None);
     b.make_set_speed_train_sim(&nets[c.net].1, &route, trace, Some(1)).map_err(|e| format!("{e:#}"))
@@ -165,7 +169,8 @@ pub fn oracle_c14(p: &SetSpeedTrainSim, s: &SetSpeedTrainSim, so: &StepOut, chec
     t(s.state.time == s.speed_trace.time[i], "time-differs-from-trace@solve_step", format!("{} vs {}", s.state.time.value, s.speed_trace.time[i].value));
     t(s.state.speed == s.speed_trace.speed[i], "speed-differs-from-trace@solve_step", format!("{} vs {}", s.state.speed.value, s.speed_trace.speed[i].value));
     let dt = so.dt;
-    let (v0, v1) = (p.state.speed.value, so.v_new);
+    // the kinetic-energy change is the one between the two TRACE samples
+    let (v0, v1) = (s.speed_trace.speed[i - 1].value, so.v_new);
     let m = s.state.mass_static.value + s.state.mass_rot.value;
     let res_net = s.state.res_rolling.value + s.state.res_bearing.value + s.state.res_davis_b.value + s.state.res_aero.value + s.state.res_grade.value + s.state.res_curve.value;
     let raw = m / (2.0 * dt) * (v1 * v1 - v0 * v0) + res_net * 0.5 * (v0 + v1);
@@ -273,7 +278,7 @@ pub fn bounds(tier: Tier) -> (usize, usize, usize) {
 pub fn rule(which: &str, tier: Tier) -> String {
     let (d, l1, l2) = bounds(tier);
     format!(
-        "E-SEQ on real SetSpeedTrainSim objects built by TrainSimBuilder::make_set_speed_train_sim: {} (route, train) combinations over the catalogue networks (links of 5/150/1000/4000 m, every elevation/heading pattern; trains of 54 m, 360 m, 400 m (overridden), 1080 m; consists 1 conv / 1 BEL / conv+BEL / shipped 5-unit / 3 mixed); alphabet = accel in {:?} m/s^2 x dt in {:?} s (one appended SpeedTrace point + one real step() per letter; start speeds 0 and 12 m/s); FULL({}) + DEV({},1) + DEV({},2) (default letter: hold speed, dt 1 s). Oracle {} on every accepted step. distinct_nontrivial = distinct (combo, how many grade/curve breakpoints the front and the rear crossed in the step, front/rear on the same segment or not, traction/braking/clipped) signatures.",
+        "E-SEQ on real SetSpeedTrainSim objects built by TrainSimBuilder::make_set_speed_train_sim: {} (route, train) combinations over the catalogue networks (links of 5/150/1000/4000 m, every elevation/heading pattern; trains of 54 m, 360 m, 400 m (overridden), 1080 m; consists 1 conv / 1 BEL / conv+BEL / shipped 5-unit / 3 mixed); alphabet = accel in {:?} m/s^2 x dt in {:?} s (one appended SpeedTrace point + one real step() per letter; start speeds 0 and 12 m/s, plus (C14/C11) a rolling-start trace at 12 m/s on a train initialised at rest); FULL({}) + DEV({},1) + DEV({},2) (default letter: hold speed, dt 1 s). Oracle {} on every accepted step. distinct_nontrivial = distinct (combo, how many grade/curve breakpoints the front and the rear crossed in the step, front/rear on the same segment or not, traction/braking/clipped) signatures.",
         combos(&networks(), tier).len(),
         ACCELS,
         DTS,
@@ -306,12 +311,15 @@ pub fn explore(ctx: &mut Ctx, which: &'static str) {
     let (full_d, dev1, dev2) = bounds(ctx.tier);
     let n_letters = 9usize;
     for (ci, (net, route, train)) in combos(&nets, ctx.tier).into_iter().enumerate() {
-        for v0 in [12.0, 0.0] {
+        for (v0, init_speed) in [(12.0, None), (0.0, None), (12.0, Some(0.0))] {
+            if init_speed.is_some() && which != "C14" && which != "C11" {
+                continue;
+            }
             for first in 0..n_letters {
                 if !ctx.claim() {
                     continue;
                 }
-                let base = SsCase { net, route: route.clone(), train, v0, path: vec![] };
+                let base = SsCase { net, route: route.clone(), train, v0, init_speed, path: vec![] };
                 let root = match build_sim(&nets, &base) {
                     Ok(s) => s,
                     Err(e) => {
@@ -326,8 +334,11 @@ pub fn explore(ctx: &mut Ctx, which: &'static str) {
                 }
                 let mut nleaf = 0u64;
                 let mut modes = vec![(full_d, None), (dev1, Some(1usize))];
-                if v0 > 0.0 {
+                if v0 > 0.0 && init_speed.is_none() {
                     modes.push((dev2, Some(2usize)));
+                }
+                if init_speed.is_some() {
+                    modes = vec![(full_d.min(3), None)];
                 }
                 for (mode_len, mode_dev) in modes {
                     let mut path: Vec<usize> = vec![first];
@@ -339,7 +350,7 @@ pub fn explore(ctx: &mut Ctx, which: &'static str) {
                         }
                         ctx.transition();
                         ctx.depth(path.len() as u64);
-                        let mk = |path: &[usize]| SsCase { net, route: route.clone(), train, v0, path: path.to_vec() };
+                        let mk = |path: &[usize]| SsCase { net, route: route.clone(), train, v0, init_speed, path: path.to_vec() };
                         if so.panicked {
                             ctx.violation(&format!("panic@SetSpeedTrainSim::step:{which}"), so.err.chars().take(300).collect(), serde_json::to_value(mk(path)).unwrap(), path.len() as u64);
                             return None;
@@ -386,7 +397,7 @@ pub fn explore(ctx: &mut Ctx, which: &'static str) {
                         if so.accepted || so.panicked {
                             let mut p: Vec<usize> = vec![0; pos];
                             p.push(100);
-                            ctx.violation("negative-speed-accepted@SetSpeedTrainSim::solve_step:set-speed", format!("a trace point with speed -0.5 m/s at position {} was {}", pos + 1, if so.panicked { "a panic" } else { "accepted" }), serde_json::to_value(SsCase { net, route: route.clone(), train, v0, path: p }).unwrap(), pos as u64);
+                            ctx.violation("negative-speed-accepted@SetSpeedTrainSim::solve_step:set-speed", format!("a trace point with speed -0.5 m/s at position {} was {}", pos + 1, if so.panicked { "a panic" } else { "accepted" }), serde_json::to_value(SsCase { net, route: route.clone(), train, v0, init_speed, path: p }).unwrap(), pos as u64);
                         } else {
                             ctx.sig("negative-speed-rejected");
                         }
@@ -422,7 +433,7 @@ pub fn run_case(nets: &[(String, Network)], c: &SsCase) -> Result<Vec<(SetSpeedT
 
 pub fn validate_walk(nets: &[(String, Network)], c: &SsCase, explored: &SetSpeedTrainSim) -> Result<(), String> {
     // the explored sim carries the complete trace; walk a fresh sim over it
-    let b = builder(&c.train, None, Some(InitTrainState::new(Some(0.0 * uc::S), None, Some(c.v0 * uc::MPS))), Some(1));
+    let b = builder(&c.train, None, Some(InitTrainState::new(Some(0.0 * uc::S), None, Some(c.init_speed.unwrap_or(c.v0) * uc::MPS))), Some(1));
     let route: Vec<_> = c.route.iter().map(|&i| lidx(i)).collect();
     let mut fresh = b.make_set_speed_train_sim(&nets[c.net].1, &route, explored.speed_trace.clone(), Some(1)).map_err(|e| format!("{e:#}"))?;
     match guarded(|| fresh.walk()) {
